@@ -68,8 +68,8 @@ theorem jump_patching_as_modelled :
       Gen.patchJumpBody = "{ offset := len(c.bytecode) - 2 - placeholder b := encode(uint16(offset)) c.bytecode[placeholder] = b[0] c.bytecode[placeholder+1] = b[1] }" ∧
       Gen.calcBackwardJumpBody = "{ return encode(uint16(len(c.bytecode) + 1 + 2 - to)) }") ∨
     (Gen.jumpGuard = true ∧
-      Gen.patchJumpBody = "{ offset := len(c.bytecode) - 2 - placeholder if offset > math.MaxUint16 { panic(\"jump offset exceeds uint16\") } b := encode(uint16(offset)) c.bytecode[placeholder] = b[0] c.bytecode[placeholder+1] = b[1] }" ∧
-      Gen.calcBackwardJumpBody = "{ offset := len(c.bytecode) + 1 + 2 - to if offset > math.MaxUint16 { panic(\"jump offset exceeds uint16\") } return encode(uint16(offset)) }") := by
+      Gen.patchJumpBody = "{ offset := len(c.bytecode) - 2 - placeholder if offset > math.MaxUint16 { panic(_) } b := encode(uint16(offset)) c.bytecode[placeholder] = b[0] c.bytecode[placeholder+1] = b[1] }" ∧
+      Gen.calcBackwardJumpBody = "{ offset := len(c.bytecode) + 1 + 2 - to if offset > math.MaxUint16 { panic(_) } return encode(uint16(offset)) }") := by
   decide +kernel
 
 /-! ### decoding inverts encoding -/
